@@ -2060,6 +2060,10 @@ def D2(ctx, rule="D2"):
         pb, ubb2, ut2, ai2 = outer_uses[0]
         ochain = iterator_chain(ctx, pb, expr_operand(pb, ut2["args"][0]))
         names = [c[0] for c in ochain]
+        sel_o = [n_ for n_ in names if n_ in SELECTIVE_ITER]
+        ctx.check(not sel_o, rule, "outer-complete", m.where(pb, ubb2),
+                  "the outer iteration visits every element of the sorted list (no skip / take / filter)",
+                  "the outer iteration is narrowed by %s: the elements it drops never get their outgoing Data edges" % [n_.split("::")[-1] for n_ in sel_o])
         if "std::iter::Iterator::enumerate" in names:
             # the list under enumerate
             srcl = sources_of_expr(ctx, pb, ochain[-1][2][2][0]) if ochain[-1][2][2] else frozenset()
@@ -2148,6 +2152,10 @@ def D2_loops(ctx, rule, cm, lr_in, lr_out):
         return
     ochain = iterator_chain(ctx, b, lr_out["iter_expr"])
     names = [c[0] for c in ochain]
+    sel_o = [n_ for n_ in names if n_ in SELECTIVE_ITER]
+    ctx.check(not sel_o, rule, "outer-complete", m.where(b, lr_out["next_bb"]),
+              "the outer loop visits every element of the sorted list (no skip / take / filter)",
+              "the outer loop is narrowed by %s: the elements it drops never get their outgoing Data edges" % [n_.split("::")[-1] for n_ in sel_o])
     n_rev = names.count("std::iter::Iterator::rev")
     rng_leaf = [c for c in ochain if c[0] == "leaf:agg" and c[2][2] == "std::ops::Range"]
     if rng_leaf and "std::iter::Iterator::enumerate" not in names:
@@ -2610,6 +2618,12 @@ def D4(ctx, rule="D4"):
     for a in ("node_count", "source", "target", "weight", "function"):
         ctx.check(a in attrs, rule, "compares|%s" % a, where, "FnGraph == compares %s" % a,
                   "FnGraph == does not compare %s: graphs differing in it compare equal" % a)
+    # `zip` stops at the shorter sequence: the number of edges is compared too, unless the edge sequences are compared with
+    # `Iterator::eq`, which compares lengths itself
+    edges_by_iter_eq = any("source" in sides_[0][0] and sides_[0][0] == sides_[1][0] for (_, _, _, sides_) in iter_eqs)
+    ctx.check("edge_count" in attrs or edges_by_iter_eq, rule, "compares|edge_count", where,
+              "FnGraph == compares the number of edges (or compares the edge sequences with Iterator::eq)",
+              "FnGraph == zips the two edge lists without comparing their lengths: a graph whose edges are a prefix of the other's compares equal")
     # iterates both graphs' raw edges zipped (no filter)
     zips = 0
     eq_like = []
@@ -2961,6 +2975,37 @@ def C18_loops(ctx, rule="C18.loops"):
     dfs(b0.id, [b0.id])
     ctx.check(not cyc, rule, "acyclic-callgraph", m.where(b0), "the call graph of build() (%d bodies) has no recursion" % len(bodies),
               "recursion in build()'s call graph: %s" % cyc[:3])
+    # (1b) no per-function list is built by concatenating other per-function lists (`list[a].extend(&list[b])`): without
+    # de-duplication such lists hold one entry per PATH, i.e. exponentially many on layered graphs
+    BULK = ("std::vec::Vec::<T, A>::extend_from_slice", "std::vec::Vec::<T, A>::append", "std::iter::Extend::extend", "std::vec::Vec::<T, A>::extend",
+            "std::collections::VecDeque::<T, A>::extend", "std::collections::VecDeque::<T, A>::append", "std::slice::<impl [T]>::concat",
+            "std::slice::<impl [T]>::to_vec", "std::clone::Clone::clone")
+    n_bulk = 0
+    for b in bodies:
+        for bb, t in b.calls():
+            p_ = callee_path(t)
+            if p_ not in BULK or not t["args"]:
+                continue
+            src_op = t["args"][1] if len(t["args"]) > 1 else t["args"][0]
+            if src_op.get("k") == "const":
+                continue
+            e_ = strip_refs(expr_operand(b, src_op))
+            nested = False
+            for c in walk_expr(e_):
+                if c.kind == "call" and c[1] in ("std::ops::Index::index", "std::ops::IndexMut::index_mut", "std::slice::<impl [T]>::get") and c[2] and \
+                        len(c) > 3 and isinstance(c[3], int) and c[3] < len(b.blocks):
+                    t2 = b.blocks[c[3]]["term"]
+                    if t2.get("k") == "call" and t2.get("args"):
+                        tys = (t2["args"][0].get("pl") or {}).get("ty") or ""
+                        if "Vec<std::vec::Vec<" in tys or "Vec<Vec<" in tys or "[std::vec::Vec<" in tys:
+                            nested = True
+            if p_ in ("std::clone::Clone::clone", "std::slice::<impl [T]>::to_vec") and not nested:
+                continue
+            if nested:
+                n_bulk += 1
+                ctx.bad(rule, "list-concat|%s" % short(b.id), m.where(b, bb),
+                        "%s copies a whole per-function list (an element of a Vec<Vec<..>>) into another collection inside build(): lists "
+                        "assembled from their successors' lists grow with the number of paths, not of functions" % p_.split("::")[-1])
     wl, others = worklist_loops(ctx, bodies)
     for b, hdr, kind in others:
         ctx.check(kind == "collection-bounded", rule, "loop|%s|bb%d" % (short(b.id), hdr), m.where(b, hdr),
@@ -2989,6 +3034,27 @@ def C18_loops(ctx, rule="C18.loops"):
                     continue
                 n_push += 1
                 ok, why = progress_guard(ctx, pb, bb, t)
+                if not ok and len(t["args"]) > 1 and callee_path(t).split("::")[-1] in ("extend", "append"):
+                    # `queue.extend(children.filter_map(|c| raise(ranks, c, cand).then_some(c)))`: what is queued is filtered by a
+                    # private compare-and-store helper that reports a strict improvement
+                    for c in iterator_chain(ctx, pb, expr_operand(pb, t["args"][1])):
+                        if c[0] not in ("std::iter::Iterator::filter_map", "std::iter::Iterator::filter") or len(c[2][2]) < 2:
+                            continue
+                        fcl = closure_of_arg(ctx, c[1], c[2][2][1])
+                        rs_ = strip_refs(return_expr(fcl)) if fcl is not None and return_expr(fcl) is not None else None
+                        if rs_ is None:
+                            continue
+                        cond = strip_refs(rs_[2][0]) if rs_.kind == "call" and rs_[1].endswith("::then_some") and rs_[2] else rs_
+                        if cond.kind == "call" and cond[1] in fb.bodies and fb.bodies[cond[1]].kind == "fn":
+                            H = fb.bodies[cond[1]]
+                            for st in stores_through_index(H):
+                                okg, whyg = progress_guard(ctx, H, st["bb"], {"args": [st["container"], st["idx"]]})
+                                gsy = {}
+                                pch = path_conditions(H, H.exits()[0], sym_bb=gsy, ret_local=0) if len(H.exits()) == 1 else None
+                                gsb = {sb for sb, de, vals in cond_guards(H, st["bb"])}
+                                sy = [k for k, bbs in gsy.items() if bbs & gsb]
+                                if okg and pch and len(sy) == 1 and faithful_return(H, sy)[0]:
+                                    ok, why = True, "filtered by %s: %s" % (short(H.id), whyg)
                 ctx.check(ok, rule, "worklist-progress|%s" % short(pb.id), m.where(pb, bb),
                           "push onto the popped work queue is control dependent on a progress guard (%s): each node is re-queued at most once per distinct value" % why,
                           "push onto the popped work queue has no progress guard (%s): the number of pops equals the number of root-to-node paths, exponential on layered/dense graphs" % why)
@@ -3275,6 +3341,64 @@ def C13_rules(ctx, rule="K"):
                     er = elem_read(o)
                     if er is None or not same_value_expr(ctx, bx, node_index_arg(er[1]) or er[1], idx_child):
                         cand = o
+            helper_sites = None
+            cs_ = strip_refs(cand) if cand is not None else None
+            if bx.kind == "fn" and bx.id != rc.id and not (fb.fns.get(bx.id) or {}).get("public") and cs_ is not None and cs_.kind == "arg" and not via_max:
+                # `fn rank_raise(ranks, child, candidate) -> bool`: compare-and-store in a private helper that reports whether it
+                # raised; what the candidate is and whether the child is queued is decided at its call sites
+                helper_sites = [(cb_, cbb_, ct_) for (cb_, cbb_, ct_) in fl.call_sites().get(bx.id, []) if cb_.id in m.reach(rc.id) and not fb.is_test_body(cb_)]
+            if helper_sites:
+                ok3, why3 = True, ""
+                for (cb_, cbb_, ct_) in helper_sites:
+                    o3, w3 = candidate_ok(ctx, cb_, expr_operand(cb_, ct_["args"][cs_[1] - 1]), allocs)
+                    if not o3:
+                        ok3, why3 = False, w3
+                # the helper stores only under its comparison and returns exactly that comparison's outcome
+                gsyms = {}
+                pcs_h = path_conditions(bx, bx.exits()[0], sym_bb=gsyms, ret_local=0) if len(bx.exits()) == 1 else None
+                gsb = {sb for sb, de, vals in cond_guards(bx, st["bb"])}
+                syms_h = [sy for sy, bbs in gsyms.items() if bbs & gsb]
+                f_ok, f_why = faithful_return(bx, syms_h) if pcs_h and len(syms_h) == 1 else (False, "no single guard around the store")
+                taken_true = any("otherwise" in vals and "0" not in vals for sb, de, vals in cond_guards(bx, st["bb"]) if sb in gsb)
+                ctx.check(ok3 and f_ok and taken_true, rule + "3", "store|%s" % short(bx.id), swhere,
+                          "the helper stores its candidate (ranks[parent] + 1 at every call site) under a `candidate > existing` guard and returns whether it did",
+                          "raise helper: candidate at the call sites: %s; returns exactly its guard: %s %s" % (why3 or "ok", f_ok, f_why))
+                # K4 at the call sites: the child is queued exactly when the helper reports a raise
+                ci_ = strip_refs(node_index_arg(expr_operand(bx, st["idx"])) or E(("unknown", "idx")))
+                okp = ci_.kind == "arg"
+                for (cb_, cbb_, ct_) in helper_sites:
+                    if not okp:
+                        break
+                    child_e = strip_refs(expr_operand(cb_, ct_["args"][ci_[1] - 1]))
+                    queued = False
+                    # (a) `if raise(..) { queue.push(child) }`
+                    for pbb_, pt_ in cb_.calls():
+                        if callee_path(pt_) in PUSH_FNS and len(pt_["args"]) > 1 and same_value_expr(ctx, cb_, strip_refs(expr_operand(cb_, pt_["args"][1])), child_e):
+                            gs_ = [(sb, strip_refs(de), vals) for sb, de, vals in cond_guards(cb_, pbb_)]
+                            if any(de.kind == "call" and len(de) > 3 and de[3] == cbb_ and "0" not in vals for sb, de, vals in gs_) and \
+                                    cb_.all_paths_pass(cbb_, [pbb_] + [sb for sb, de, vals in gs_ if de.kind == "call" and len(de) > 3 and de[3] == cbb_], cb_.exits()):
+                                queued = True
+                    # (b) `children.filter_map(|c| raise(.., c, ..).then_some(c))` handed to `queue.extend(..)`
+                    re_ = return_expr(cb_) if cb_.kind == "closure" else None
+                    rs_ = strip_refs(re_) if re_ is not None else None
+                    if rs_ is not None and rs_.kind == "call" and rs_[1].endswith("::then_some") and len(rs_[2]) == 2:
+                        cnd, val = strip_refs(rs_[2][0]), strip_refs(rs_[2][1])
+                        if cnd.kind == "call" and len(cnd) > 3 and cnd[3] == cbb_ and same_value_expr(ctx, cb_, val, child_e):
+                            for (ub_, ubb_, ut_, ai_) in fl.closure_uses(cb_):
+                                if callee_path(ut_) != "std::iter::Iterator::filter_map":
+                                    continue
+                                for xbb, xt in ub_.calls():
+                                    if callee_path(xt) in PUSH_FNS and len(xt["args"]) > 1:
+                                        xch = iterator_chain(ctx, ub_, expr_operand(ub_, xt["args"][1]))
+                                        if any(c[0] == "std::iter::Iterator::filter_map" and len(c[2]) > 3 and c[2][3] == ubb_ for c in xch) and \
+                                                not [c for c in xch if c[0] in SELECTIVE_ITER and c[0] != "std::iter::Iterator::filter_map"]:
+                                            queued = True
+                    if not queued:
+                        okp = False
+                ctx.check(okp, rule + "4", "requeue|%s" % short(bx.id), swhere,
+                          "wherever the raise helper is called, the child is (re)queued exactly when it reports a raise",
+                          "a raise of ranks[child] reported by the helper is not followed by queueing the child: descendants keep stale ranks")
+                continue
             ok3, why3 = candidate_ok(ctx, bx, cand, allocs)
             guarded = False
             if not via_max:
